@@ -71,5 +71,13 @@ CHECKS += [
          technique="stateful property-based testing in the cluster simulation with an observation-based decision oracle"),
 ]
 
+CHECKS += [
+    dict(property_id="C08", category="exploration",
+         text="A real daemon is driven into the lost state (ZooKeeper link cut until the client gives the session up) on a master / HA replica / cascade host; for sequences of lost-state iterations the per-replica conditions (streaming with or without the semi-sync flag, stopped, other source, refusing, erroring, timing out), the local wait count and master flag, the outcome of the read-only attempt (ok / 1205 / hang / other), stuck semi-sync commits, elapsed time across inactivation_delay and reconnection are generated; the oracle is a decision table written from the statement and applied to ground truth and reachability at the start of each iteration, plus 'no statement to other hosts, no un-fencing or re-pointing while disconnected' and the offline -> semi-sync off -> read-only order for stuck commits.",
+         design_ref="DESIGN.md section 4, C08",
+         note="Trusted: fake MySQL's model of commits waiting for an ack (SET read_only blocks on them until the lock wait timeout; offline_mode kills sessions but does not release the wait; disabling semi-sync does). Postponement is judged leniently (window measured from the end of the first iteration that saw a timeout to the start of the current one).",
+         technique="property-based testing of the real lost-state handler over fake servers with a decision-table oracle"),
+]
+
 _claimed = {c["property_id"] for c in CHECKS}
 NOT_APPLICABLE = [dict(property_id=p, reason="check not built yet in this revision (framework under construction; see DESIGN.md build order)") for p in ALL if p not in _claimed]
